@@ -66,6 +66,7 @@ PACKAGES = {
 }
 COND_CASES = [
     "[1P]", "[1P] U [2P]", "[2P] U [1P]", "[1P][2P]", "[1P] O [1P]", "([1P]) X ([2P] U [3P])", "[11] U [1P] U [12]", "[1P0..1]", "[2P1..5] O [1P]",
+    "[1P0..10]", "[2P5..100] U [3P10..20]",
     "[3P] X [2P] X [1P]", "[4P]", "[4P] U [11]", "[UB1]", "[UB2] U [UB1]", "[UB3]", "[UB3] O [1]", "[1] U ([UB3])", "[5P]", "[5P] U [1P]",
     "[6P] X [13][902]", "[7P]", "[8P] O [4P]", "[UB1] U [1P]", "[4P] U [UB2]", "[1][901] U [2P]", "[11]", "[1] U [2]",
     "[1P] U [2P] U [3P] U [6P]", "([2P] O [3P])[903]",
